@@ -38,6 +38,9 @@ def regen(ctx):
     connection handle can be resolved, read from the current bumble/controller.py (fail closed)"""
     from translate.c06_handles import coq_text
     ctx.write_gen('C06Handles', coq_text(ctx.repo))
+    # the shape of every anchored function (comparisons, table stores / deletes, calls, constructor arguments)
+    from translate import c06_shape
+    ctx.write_gen('C06Shape', c06_shape.coq_text(ctx.repo))
 
 
 class Unsupported(Exception):
@@ -55,6 +58,28 @@ def pub_str(i):
 
 def rnd_str(i):
     return ':'.join([f'C{i}'] * 6)
+
+
+def rnd_str_n(i, n):
+    """the n-th random address device i takes later on (n >= 1), a static random address"""
+    return ':'.join([f'D{i}'] * 5 + [f'{n:02X}'])
+
+
+def set_str(i, n):
+    """random address of the n-th advertising set of device i that has one of its own"""
+    return ':'.join([f'E{i}'] * 5 + [f'{n:02X}'])
+
+
+def target_addr(target, cur_rnd):
+    """scenario target -> bumble Address.  ['pub', j] / ['none', j]: public address; ['rnd', j]: the random
+    address device j has at this moment; ['set', j, n]: the own random address of an advertising set"""
+    from bumble.hci import Address
+    kind = target[0]
+    if kind in ('pub', 'none'):
+        return Address(pub_str(target[1]), Address.PUBLIC_DEVICE_ADDRESS)
+    if kind == 'set':
+        return Address(set_str(target[1], target[2]))
+    return Address(cur_rnd[target[1]])
 
 
 # ----------------------------------------------------------------------------- event loop
@@ -262,6 +287,8 @@ def command_label(ci, packet):
         return ('LScanEnable', ci, bool(c.le_scan_enable))
     if name in ('HCI_LE_CREATE_CONNECTION_COMMAND', 'HCI_LE_EXTENDED_CREATE_CONNECTION_COMMAND'):
         return ('LConnect', ci, enc_addr(c.peer_address), int(c.own_address_type) == 0)
+    if name == 'HCI_LE_CREATE_CONNECTION_CANCEL_COMMAND':
+        return ('LCancel', ci)
     if name == 'HCI_DISCONNECT_COMMAND':
         return ('LDisconnect', ci, c.connection_handle, int(c.reason))
     if name == 'HCI_CREATE_CONNECTION_COMMAND':
@@ -305,7 +332,7 @@ def event_of(packet):
         return []
     if t == 'HCI_LE_Connection_Complete_Event':
         if int(packet.status) != 0:
-            raise Unsupported('LE connection complete with an error status')
+            return [('ELeConnFail', int(packet.status), enc_addr(packet.peer_address))]
         return [('ELeConn', packet.connection_handle, int(packet.role) == 0, enc_addr(packet.peer_address))]
     if t == 'HCI_LE_Advertising_Set_Terminated_Event':
         return [('ESetTerminated', packet.advertising_handle, packet.connection_handle)]
@@ -541,7 +568,9 @@ class World:
         self.cigs = [{} for _ in range(n)]       # per device: cig id -> CIS handles
         self.tasks = []                          # (kind, device, target, task)
         self.pub = [enc_addr(Address(pub_str(i), Address.PUBLIC_DEVICE_ADDRESS)) for i in range(n)]
-        self.rnd = [enc_addr(Address(rnd_str(i))) for i in range(n)]
+        self.rnd = [enc_addr(Address(rnd_str(i))) for i in range(n)]       # random address at power-on
+        self.cur_rnd = [rnd_str(i) for i in range(n)]                        # random address now
+        self.addrs = [{self.pub[i], self.rnd[i]} for i in range(n)]          # every address device i ever used
         for i in range(n):
             d = Device(address=Address(rnd_str(i)), host=Host(self.ctrl[i], AsyncPipeSink(self.ctrl[i])))
             d.classic_enabled = True
@@ -606,9 +635,12 @@ class World:
 
     def owner(self, addr):
         for i in range(self.n):
-            if addr in (self.pub[i], self.rnd[i]):
+            if addr in self.addrs[i]:
                 return i
         return None
+
+    def mine(self, i):
+        return tuple(sorted(self.addrs[i]))
 
 
 def deliverable(held):
@@ -638,38 +670,82 @@ async def run_ops(cfg, ops_source):
         raise Hang('power on')
     w.ops = []
     w.windows = []           # (device, kind, index, live links before, live links after) per disconnect
+    w.last_adv_addr = [None] * w.n
+    w.adv_log = []           # (device, encoded address, data, data + scan response) of every advertising start
+    w.target_enc = []        # encoded address of every connect target, resolved when the op ran
+    w.cancelled = set()      # connect tasks for which a cancel was issued
     for op in ops_source(w):
         w.ops.append(op)
         kind = op[0]
         r = w.rec
         if kind == 'adv':                       # legacy API (legacy commands or legacy-PDU set)
             _, i, own_pub, data, srsp = op
+            from bumble.hci import Address
+            w.last_adv_addr[i] = w.pub[i] if own_pub else enc_addr(Address(w.cur_rnd[i]))
+            w.adv_log.append((i, w.last_adv_addr[i], list(data), list(data) + list(srsp)))
             w.tasks.append(('adv', i, None, asyncio.ensure_future(w.dev[i].start_advertising(
                 own_address_type=hci.OwnAddressType.PUBLIC if own_pub else hci.OwnAddressType.RANDOM,
                 advertising_data=bytes(data), scan_response_data=bytes(srsp), advertising_interval_min=100.0,
                 advertising_interval_max=100.0))))
         elif kind == 'adv_stop':
             w.tasks.append(('adv_stop', op[1], None, asyncio.ensure_future(w.dev[op[1]].stop_advertising())))
-        elif kind == 'ext':                     # extended advertising set
-            _, i, own_pub, data = op
+        elif kind == 'ext':                     # extended advertising set (optionally with its own random address)
+            i, own_pub, data = op[1], op[2], op[3]
+            setrnd = op[4] if len(op) > 4 else None
+            extra = {}
+            from bumble.hci import Address
+            if setrnd is not None:
+                extra['random_address'] = Address(set_str(i, setrnd))
+                w.addrs[i].add(enc_addr(extra['random_address']))
+            w.last_adv_addr[i] = w.pub[i] if own_pub else enc_addr(
+                extra.get('random_address') or Address(w.cur_rnd[i]))
+            w.adv_log.append((i, w.last_adv_addr[i], list(data), list(data)))
             w.tasks.append(('ext', i, None, asyncio.ensure_future(w.dev[i].create_advertising_set(
                 advertising_parameters=AdvertisingParameters(
                     own_address_type=hci.OwnAddressType.PUBLIC if own_pub else hci.OwnAddressType.RANDOM),
-                advertising_data=bytes(data)))))
+                advertising_data=bytes(data), **extra))))
+        elif kind == 'set_random':              # the device takes a new random address (also while connected)
+            _, i, k = op
+            from bumble.hci import Address
+            a = Address(rnd_str_n(i, k))
+            w.cur_rnd[i] = rnd_str_n(i, k)
+            w.addrs[i].add(enc_addr(a))
+            w.dev[i].random_address = a
+            w.tasks.append(('set_random', i, None, asyncio.ensure_future(w.dev[i].send_sync_command(
+                hci.HCI_LE_Set_Random_Address_Command(random_address=a)))))
+        elif kind == 'cancel':                  # LE Create Connection Cancel while connect() is pending
+            _, i = op
+            pend = [t for (kd, d, tg, t) in w.tasks if kd == 'connect' and d == i and not t.done()]
+            if pend:
+                w.cancelled.add(id(pend[-1]))
+                w.tasks.append(('cancel', i, None, asyncio.ensure_future(w.dev[i].send_command(
+                    hci.HCI_LE_Create_Connection_Cancel_Command()))))
         elif kind == 'scan':
             _, i, active = op
             w.tasks.append(('scan', i, None, asyncio.ensure_future(w.dev[i].start_scanning(legacy=True, active=active))))
         elif kind == 'scan_stop':
             w.tasks.append(('scan_stop', op[1], None, asyncio.ensure_future(w.dev[op[1]].stop_scanning(legacy=True))))
         elif kind == 'connect':
-            _, i, target, own_pub = op
-            a = _addr_of(target)
+            i, target, own_pub = op[1], op[2], op[3]
+            # optional 5th element: a message in flight that is delivered while connect() is still sending its
+            # command (an incoming connection can arrive in that window)
+            concurrent = op[4] if len(op) > 4 else None
+            a = target_addr(target, w.cur_rnd)
+            w.target_enc.append(enc_addr(a))
+            target = list(target) + ['@', len(w.target_enc) - 1]
             w.tasks.append(('connect', i, target, asyncio.ensure_future(w.dev[i].connect(
                 a, own_address_type=hci.OwnAddressType.PUBLIC if own_pub else hci.OwnAddressType.RANDOM))))
+            if concurrent is not None and concurrent < len(r.held) and concurrent in deliverable(r.held):
+                m = r.held.pop(concurrent)
+                r.releasing = concurrent
+                asyncio.get_running_loop().really_soon(m['cb'], *m['args'])
         elif kind == 'cl_connect':
             _, i, target = op
+            a = target_addr(target, w.cur_rnd)
+            w.target_enc.append(enc_addr(a))
+            target = list(target) + ['@', len(w.target_enc) - 1]
             w.tasks.append(('cl_connect', i, target, asyncio.ensure_future(w.dev[i].connect(
-                _addr_of(target), transport=PhysicalTransport.BR_EDR))))
+                a, transport=PhysicalTransport.BR_EDR))))
         elif kind == 'send':
             _, i, k, payload = op
             if k < len(w.conns[i]) and w.conns[i][k].handle in w.dev[i].connections \
@@ -758,12 +834,13 @@ async def run_ops(cfg, ops_source):
     w.results = []
     for kind, i, target, t in w.tasks:
         if not t.done():
-            w.results.append((kind, i, target, 'pending', None))
+            w.results.append((kind, i, target, 'cancel-ignored' if id(t) in w.cancelled else 'pending', None))
             t.cancel()
         elif t.cancelled():
             w.results.append((kind, i, target, 'cancelled', None))
         elif t.exception() is not None:
-            w.results.append((kind, i, target, 'error', type(t.exception()).__name__))
+            w.results.append((kind, i, target, 'cancelled' if id(t) in w.cancelled else 'error',
+                              type(t.exception()).__name__))
         else:
             res = t.result()
             if kind in ('connect', 'cl_connect'):
@@ -773,12 +850,10 @@ async def run_ops(cfg, ops_source):
                 w.results.append((kind, i, target, 'ok', None))
     await w.settle()
     # which addresses are still being advertised at the end (Device API + the op list)
-    w.advertised = set()
+    w.advertised = set()     # (device, encoded address) still advertised at the end
     for i in range(w.n):
-        if w.dev[i].is_advertising:
-            last = [op for op in w.ops if op[0] in ('adv', 'ext') and op[1] == i]
-            if last:
-                w.advertised.add((i, 'pub' if last[-1][2] else 'rnd'))
+        if w.dev[i].is_advertising and w.last_adv_addr[i] is not None:
+            w.advertised.add((i, w.last_adv_addr[i]))
     # final implementation tables
     w.tables = []
     for c in w.ctrl:
@@ -811,14 +886,6 @@ async def drain(w):
         r.releasing = 0
         asyncio.get_running_loop().really_soon(m['cb'], *m['args'])
     raise Hang('drain never ends')
-
-
-def _addr_of(target):
-    from bumble.hci import Address
-    kind, i = target
-    if kind in ('pub', 'none'):          # 'none': a public address that no device of the scenario owns
-        return Address(pub_str(i), Address.PUBLIC_DEVICE_ADDRESS)
-    return Address(rnd_str(i))
 
 
 def _js(v):
@@ -876,6 +943,8 @@ class Generator:
         self.length = length
         self.mode = mode            # 'natural' | 'delayed'
         self.seq = 0
+        self.nset = 0
+        self.nrnd = 0
 
     def __call__(self, w):
         rng = self.rng
@@ -931,6 +1000,9 @@ class Generator:
                         return False
                 return True
             usable = sorted(key for key, c in live.items() if established(key[0], c))
+            # since D06d.patch several centrals may race for one advertiser, and an advertiser may stop while a
+            # ConnectInd is on its way: the losers are refused (connection, then disconnection 0x3E)
+            race = rng.chance(1, 3)
             choices = []
             if r.held:
                 choices += ['deliver'] * (6 if self.mode == 'delayed' else 12)
@@ -942,7 +1014,7 @@ class Generator:
                 choices += ['ext', 'ext']
             if adv:
                 choices += ['tick'] * 3
-                stoppable = [i for i in adv if not busy(i)]
+                stoppable = [i for i in adv if race or not busy(i)]
                 if stoppable:
                     choices += ['adv_stop']
             if len(scanning) < n:
@@ -950,7 +1022,7 @@ class Generator:
             if scanning:
                 choices += ['scan_stop']
             connectable = [(i, j) for i in range(n) if i not in pending for j in adv if j != i
-                           and frozenset((i, j)) not in linked_le and not busy(j) and not pair_busy(i, j)]
+                           and frozenset((i, j)) not in linked_le and (race or not busy(j)) and not pair_busy(i, j)]
             if connectable:
                 choices += ['connect'] * 4
             cl_pairs = [(i, j) for i in range(n) for j in range(n) if i != j and i not in pending
@@ -977,6 +1049,17 @@ class Generator:
             choices += ['cig']
             if any(w.cigs[i] for i in range(n)):
                 choices += ['cig_remove']
+            # a device that neither advertises nor connects nor is being connected to may take a new random
+            # address, also while it holds connections
+            movable = [i for i in range(n) if i not in adv and i not in pending and not busy(i)
+                       and not any(kind in ('adv', 'ext', 'adv_stop') and d == i and not t.done() for (kind, d, tg, t) in w.tasks)]
+            if movable:
+                choices += ['set_random']
+            cancellable = [i for i in pending if pending[i][0] != 'pub' or True]
+            cancellable = [i for i in cancellable
+                           if any(kind == 'connect' and d == i and not t.done() for (kind, d, tg, t) in w.tasks)]
+            if cancellable:
+                choices += ['cancel']
             if not choices:
                 choices = ['adv']
             ch = rng.choice(choices)
@@ -994,8 +1077,22 @@ class Generator:
             elif ch == 'ext':
                 i = rng.choice(idle_ext)
                 own_pub = rng.chance(1, 2)
-                adv[i] = ('ext', own_pub)
-                yield ['ext', i, own_pub, data_for(i, 'ext')]
+                if not own_pub and rng.chance(1, 2):
+                    # the set gets a random address of its own
+                    self.nset += 1
+                    adv[i] = ('ext', own_pub, self.nset)
+                    yield ['ext', i, own_pub, data_for(i, 'ext'), self.nset]
+                else:
+                    adv[i] = ('ext', own_pub, None)
+                    yield ['ext', i, own_pub, data_for(i, 'ext')]
+            elif ch == 'set_random':
+                i = rng.choice(movable)
+                self.nrnd += 1
+                yield ['set_random', i, self.nrnd]
+            elif ch == 'cancel':
+                i = rng.choice(cancellable)
+                yield ['cancel', i]
+                yield ['flush']
             elif ch == 'adv_stop':
                 i = rng.choice(stoppable)
                 if adv[i][0] == 'leg':
@@ -1015,9 +1112,20 @@ class Generator:
                 yield ['scan_stop', i]
             elif ch == 'connect':
                 i, j = rng.choice(connectable)
-                target = ['pub' if adv[j][1] else 'rnd', j]
+                if adv[j][1]:
+                    target = ['pub', j]
+                elif adv[j][0] == 'ext' and adv[j][2] is not None:
+                    target = ['set', j, adv[j][2]]
+                else:
+                    target = ['rnd', j]
                 pending[i] = target
-                yield ['connect', i, target, rng.chance(1, 2)]
+                # a ConnectInd addressed to this very device may be on its way: deliver it while connect() starts
+                incoming = [k for k in deliverable(r.held) if r.held[k]['msg'][0] == 'MConnInd' and r.held[k]['dst'] == i
+                            and w.owner(r.held[k]['msg'][2]) == i]
+                if incoming and rng.chance(2, 3):
+                    yield ['connect', i, target, rng.chance(1, 2), incoming[0]]
+                else:
+                    yield ['connect', i, target, rng.chance(1, 2)]
             elif ch == 'cl_connect':
                 i, j = rng.choice(cl_pairs)
                 pending[i] = ['pub', j]
@@ -1187,7 +1295,7 @@ def oracle(w):
         gone = [[x for x in before[d] if x not in after[d]] for d in range(n)]
         new = [[x for x in after[d] if x not in before[d]] for d in range(n)]
         j = own(peer_of.get((i, kind, k)))
-        mine = (w.pub[i], w.rnd[i])
+        mine = w.mine(i)
         what = f'device {i} disconnected its {kind} link #{k}'
         if [x[:2] for x in gone[i]] != [(kind, k)]:
             bad.append(('disconnect-wrong-link', f'{what}: at device {i} the links that went away are {gone[i]}'))
@@ -1215,8 +1323,13 @@ def oracle(w):
             elif kind == 'cl_connect' and status != 'error':
                 bad.append(('connect-never-completes', f'device {i}: BR/EDR connect to an address nobody owns is {status}'))
             continue
-        t = w.pub[target[1]] if target[0] == 'pub' else w.rnd[target[1]]
+        t = w.target_enc[target[-1]]
         asked[(i, t)] = asked.get((i, t), 0) + 1
+        if status == 'cancel-ignored':
+            bad.append(('cancel-ignored', f'device {i}: connect({target[:2]}) is still pending after LE Create Connection Cancel'))
+            continue
+        if status == 'cancelled':
+            continue
         if status == 'ok':
             if k is None:
                 bad.append(('connect-result', f'device {i}: connect() returned a connection that was never announced'))
@@ -1232,7 +1345,7 @@ def oracle(w):
             # everything in flight was delivered and every advertiser had one more advertising event
             if kind == 'cl_connect':
                 bad.append(('connect-never-completes', f'device {i}: BR/EDR connect({target}) never completed'))
-            elif (target[1], target[0]) in w.advertised:
+            elif (target[1], t) in w.advertised:
                 bad.append(('connect-never-completes', f'device {i}: connect({target}) never completed although '
                                                        f'device {target[1]} is advertising that address'))
     # 3. only the target gets the connection; both ends report matching peers
@@ -1246,7 +1359,7 @@ def oracle(w):
                 bad.append(('unasked-central', f'device {i}: central connection to {peer} without a connect() to it'))
         else:
             # somebody owning `peer` must have asked for an address of ours
-            mine = (w.pub[i], w.rnd[i])
+            mine = w.mine(i)
             if not any(asked.get((j, a), 0) for a in mine):
                 bad.append(('not-the-target', f'device {i}: incoming connection from {peer} (device {j}) although '
                                               f'device {j} never connected to an address of device {i}'))
@@ -1263,7 +1376,7 @@ def oracle(w):
             j = own(peer)
             if j is None:
                 continue
-            mine = (w.pub[i], w.rnd[i])
+            mine = w.mine(i)
             mirrors = [x for x in lives[j] if x[1] in mine and x[2] != central and x[3] == le]
             if len(mirrors) != 1:
                 bad.append(('asymmetric', f'device {i} holds connection #{k} to {peer} (device {j}, '
@@ -1276,7 +1389,7 @@ def oracle(w):
     for i in range(n):
         for (k, peer) in live_sco(i):
             j = own(peer)
-            if j is None or sum(1 for (_, p) in live_sco(j) if p == w.pub[i]) != 1:
+            if j is None or sum(1 for (_, p) in live_sco(j) if p in w.mine(i)) != 1:
                 bad.append(('asymmetric-sco', f'device {i} holds sco link #{k} with {peer} (device {j}) without exactly '
                                               f'one matching link there'))
     # 4. every PDU is delivered exactly once, in order, to the peer of its connection and to nobody else
@@ -1304,7 +1417,7 @@ def oracle(w):
     for (i, k), payloads in sorted(sent.items()):
         rec = next(x for x in recs if x[0] == i and x[1] == k)
         j = own(rec[3])
-        mine = (w.pub[i], w.rnd[i])
+        mine = w.mine(i)
         # the mirror connection at j: same transport, opposite role, peer one of our addresses, overlapping in time
         cands = [x for x in recs if x[0] == j and x[3] in mine and x[4] != rec[4] and x[5] == rec[5]]
         got_all = []
@@ -1335,7 +1448,7 @@ def oracle(w):
             j = own(rec[3])
             if (i, k) not in disconnected:
                 bad.append(('disc-not-local', f'device {i}: disconnect of connection #{k} was never reported to itself'))
-            mine = (w.pub[i], w.rnd[i])
+            mine = w.mine(i)
             cands = [x for x in recs if x[0] == j and x[3] in mine and x[4] != rec[4] and x[5] == rec[5]]
             if cands and not any((j, x[1]) in disconnected for x in cands):
                 bad.append(('disc-not-remote', f'device {i} disconnected connection #{k}; device {j} never saw a '
@@ -1376,20 +1489,12 @@ def annotate(w):
     exp = {}                 # (device, address) -> {is_scan_response: [acceptable payloads]}
     scan_mode = {}
     ever_active = {}
+    for (i, a, data, merged) in w.adv_log:
+        e = exp.setdefault((i, a), {True: [], False: []})
+        e[False].append(data)
+        e[True].append(merged)
     for op in w.ops:
-        if op[0] == 'adv':
-            _, i, own_pub, data, srsp = op
-            a = w.pub[i] if own_pub else w.rnd[i]
-            e = exp.setdefault((i, a), {True: [], False: []})
-            e[False].append(list(data))
-            e[True].append(list(data) + list(srsp))
-        elif op[0] == 'ext':
-            _, i, own_pub, data = op
-            a = w.pub[i] if own_pub else w.rnd[i]
-            e = exp.setdefault((i, a), {True: [], False: []})
-            e[False].append(list(data))
-            e[True].append(list(data))
-        elif op[0] == 'scan':
+        if op[0] == 'scan':
             scan_mode[op[1]] = op[2]
             ever_active[op[1]] = ever_active.get(op[1], False) or op[2]
     w.expected_adv = exp
@@ -1423,8 +1528,8 @@ def label_coq(l):
         return f'LExtRemove {nat(l[1])} {coq_z(l[2])}'
     if k == 'LExtClear':
         return f'LExtClear {nat(l[1])}'
-    if k == 'LTick':
-        return f'LTick {nat(l[1])}'
+    if k in ('LTick', 'LCancel'):
+        return f'{k} {nat(l[1])}'
     if k == 'LExtTick':
         return f'LExtTick {nat(l[1])} {coq_z(l[2])}'
     if k == 'LConnect':
@@ -1450,12 +1555,14 @@ def model_expr(w):
     n = w.n
     pre = w.rec.labels[:n]
     if [l[:2] for l in pre] != [('LSetRandom', i) for i in range(n)]:
-        hyp = '(false, false, false)'
+        hyp = '(false, false, false, false, false)'
     else:
         real = '[' + '; '.join(f'({w.pub[i]}, {pre[i][2]}, {"true" if w.cfg["ext"][i] else "false"})'
                               for i in range(n)) + ']'
         hyp = (f'(let sym := run_ok guard_sym (init {real}) (skipn {n} ls) in (cfg_ok {real}, '
-               f'(if sym then true else run_ok guard_static (init {real}) (skipn {n} ls)), sym))')
+               f'(if sym then true else run_ok guard_static (init {real}) (skipn {n} ls)), sym, '
+               f'(if sym then true else run_ok guard_fresh (init {real}) (skipn {n} ls)), '
+               f'run_ok guard_cl (init {real}) (skipn {n} ls)))')
     return f"let ls := {labels} in let '(s, tr) := run (init {cfg}) ls in (tr, state_obs s, {hyp})"
 
 
@@ -1598,6 +1705,10 @@ def evaluate_models(ctx, pending):
             ctx.count('hypotheses.distinct_addresses', int(bool(hyp[0])))
             ctx.count('hypotheses.static_addresses', int(bool(hyp[1])))
             ctx.count('hypotheses.symmetry_guard', int(bool(hyp[2])))
+            ctx.count('hypotheses.fresh_addresses', int(bool(hyp[3])))
+            ctx.count('hypotheses.classic_symmetry_guard', int(bool(hyp[4])))
+            if not hyp[3]:
+                ctx.extra.setdefault('runs_outside_fresh_address_guard', []).append(name)
             if not hyp[2]:
                 ctx.extra.setdefault('runs_outside_symmetry_guard', []).append(name)
         if d is not None:
@@ -1629,7 +1740,8 @@ def run(ctx):
     rng = ctx.rng
     pending = []
     for name, cfg, ops in corpus():
-        if name != KNOWN_RACE_NAME:
+        if True:
+            # (D06d is fixed: its witness is an ordinary corpus scenario now)
             run_case(ctx, name, cfg, replay_source(ops), pending, sample=True)
             continue
         # the known finding D06d is checked to still reproduce (its model run is compared like any other)
